@@ -1,5 +1,5 @@
 """Shared machinery of the lz4 verification checks (build, oracle, workers, evidence)."""
-import os, sys, sys, json, hashlib, subprocess, time, fcntl, glob, shutil, random, re
+import os, sys, json, hashlib, subprocess, time, fcntl, glob, shutil, random, re
 
 ROOT = os.path.dirname(os.path.dirname(os.path.dirname(os.path.abspath(__file__))))
 REPO = os.environ.get("VERIF_REPO", "/repo")
